@@ -432,9 +432,22 @@ fn insn_forms() -> Vec<Vec<Insn>> {
 }
 
 fn edge_case(units: &[&Vec<Insn>]) -> ExecCase {
+    edge_case_kind(0, units)
+}
+
+/// The JIT's prologue differs between the VM kinds (no metadata / metadata / metadata with the
+/// packet pointers stored by the prologue), so code sizes around a page multiple are built for
+/// each of them.
+const EDGE_KINDS: [VmKind; 4] = [VmKind::NoData, VmKind::Raw, VmKind::Mbuff { data_off: 0, end_off: 8 }, VmKind::Fixed { data_off: 0x40, end_off: 0x50 }];
+
+fn edge_case_kind(kind: usize, units: &[&Vec<Insn>]) -> ExecCase {
     let mut insns: Vec<Insn> = units.iter().flat_map(|f| f.iter().copied()).collect();
     insns.push(Insn::new(EXIT, 0, 0, 0, 0));
-    let mut c = ExecCase::new(VmKind::NoData, encode_prog(&insns));
+    let mut c = ExecCase::new(EDGE_KINDS[kind % 4], encode_prog(&insns));
+    if kind % 4 != 0 {
+        c.pkt = vec![0x5a; 16];
+        c.mbuff = vec![0; 32];
+    }
     c.helpers = vec![(1, 0)];
     c
 }
@@ -468,19 +481,35 @@ fn page_edges(ctx: &Ctx, runner: &RefCell<Runner>) -> bool {
             continue;
         }
         sized.push((fi, unit, len[0] - 2 * unit));
-        for k in 1..=pages {
-            let cross = (k * PAGE - (len[0] - 2 * unit)).div_euclid(unit);
-            for n in [cross - 1, cross, cross + 1] {
-                if n < 1 {
-                    continue;
+        for kind in 0..4usize {
+            // bytes of everything but the units, for this VM kind
+            let rest = if kind == 0 {
+                len[0] - 2 * unit
+            } else {
+                let mut case = edge_case_kind(kind, &vec![f; 2]);
+                case.compile_only = true;
+                let r = runner.borrow_mut().run(&case, &jit);
+                match r[0].outcome {
+                    Outcome::CompiledOnly => r[0].code_len as i64 - 2 * unit,
+                    _ => continue,
                 }
-                let mut case = edge_case(&vec![f; n as usize]);
-                let mut st = ctx.stats();
-                let v = check12(&mut runner.borrow_mut(), &mut case, &jit, Some(&mut st), "page-edge");
-                st.class(&format!("page-edge:{}-page", k));
-                drop(st);
-                if ctx.enumerate_case(v, "jit", || case.to_json()) {
-                    return true;
+            };
+            for k in 1..=pages {
+                // sizes from just below the page multiple to a few units above it
+                let cross = (k * PAGE - rest).div_euclid(unit);
+                for n in [cross - 1, cross, cross + 1, cross + 2] {
+                    if n < 1 {
+                        continue;
+                    }
+                    let mut case = edge_case_kind(kind, &vec![f; n as usize]);
+                    let mut st = ctx.stats();
+                    let v = check12(&mut runner.borrow_mut(), &mut case, &jit, Some(&mut st), "page-edge");
+                    st.class(&format!("page-edge:{}-page", k));
+                    st.class(&format!("page-edge:vm:{}", EDGE_KINDS[kind].name()));
+                    drop(st);
+                    if ctx.enumerate_case(v, "jit", || case.to_json()) {
+                        return true;
+                    }
                 }
             }
         }
@@ -491,11 +520,22 @@ fn page_edges(ctx: &Ctx, runner: &RefCell<Runner>) -> bool {
     if sized.is_empty() {
         return false;
     }
-    let base = sized.iter().map(|s| s.2).max().unwrap_or(64);
+    // bytes of an otherwise empty program, per VM kind
+    let mut bases = [0i64; 4];
+    for (kind, b) in bases.iter_mut().enumerate() {
+        let mut case = edge_case_kind(kind, &[]);
+        case.compile_only = true;
+        let r = runner.borrow_mut().run(&case, &jit);
+        *b = match r[0].outcome {
+            Outcome::CompiledOnly => r[0].code_len as i64,
+            _ => sized.iter().map(|s| s.2).max().unwrap_or(64),
+        };
+    }
     let cases = ctx.share(ctx.tier.pick(6_400, 160_000));
-    let strat = (1..=pages, -96i64..=96, prop::collection::vec(any::<u16>(), 1200));
-    ctx.search("page-edge-mix", "jit", cases, strat, |(k, delta, picks), want_case| {
-        let target = k * PAGE + delta - base;
+    let strat = (1..=pages, -40i64..=60, prop::collection::vec(any::<u16>(), 1200), 0usize..4);
+    ctx.search("page-edge-mix", "jit", cases, strat, |(k, delta, picks, kind), want_case| {
+        let kind = *kind;
+        let target = k * PAGE + delta - bases[kind];
         let mut total = 0i64;
         let mut units = Vec::new();
         for p in picks {
@@ -506,9 +546,12 @@ fn page_edges(ctx: &Ctx, runner: &RefCell<Runner>) -> bool {
             units.push(&forms[fi]);
             total += unit;
         }
-        let mut case = edge_case(&units);
+        let mut case = edge_case_kind(kind, &units);
         let mut st = ctx.stats();
         let frozen = st.is_frozen() || want_case;
+        if !frozen {
+            st.class(&format!("page-edge-mix:vm:{}", EDGE_KINDS[kind].name()));
+        }
         let v = check12(&mut runner.borrow_mut(), &mut case, &jit, if frozen { None } else { Some(&mut st) }, "page-edge-mix");
         (v, if want_case { case.to_json() } else { Value::Null })
     });
